@@ -743,6 +743,11 @@ def rule_ord_bijection(ctx):
                       "the writer's (before-colon, after-colon) choice per order constant is not decided in this form" % unparse(gen))
         ctx.floor("ORD.BIJECTION", 0)
         return
+    if not rmap and wmap:
+        ctx.undecided("ORD.BIJECTION", site, fm, fm.node, "SectionParser.metadata() has no `<order> == \"value:descr\"` style branch at all: "
+                      "the reader picks value and description by computed field names, which this rule does not evaluate")
+        ctx.floor("ORD.BIJECTION", 0)
+        return
     for const in ("value:descr", "descr:value"):
         if const not in wmap:
             problems.append("writer has no formatter for order %r" % const)
